@@ -110,6 +110,28 @@ impl RefType {
     }
 }
 
+/// Replaces every `Self` in the provided type with the provided tokens (the deriving type with its
+/// generic arguments), so the type may be spelled where `Self` means something else.
+#[cfg(any(feature = "into", feature = "into_iterator", feature = "try_into"))]
+pub(crate) fn replace_self(ty: &impl ToTokens, with: &TokenStream) -> TokenStream {
+    fn replace(tokens: TokenStream, with: &TokenStream) -> TokenStream {
+        tokens
+            .into_iter()
+            .flat_map(|tt| match tt {
+                proc_macro2::TokenTree::Ident(i) if i == "Self" => with.clone(),
+                proc_macro2::TokenTree::Group(g) => {
+                    let mut group =
+                        proc_macro2::Group::new(g.delimiter(), replace(g.stream(), with));
+                    group.set_span(g.span());
+                    proc_macro2::TokenTree::Group(group).into()
+                }
+                tt => tt.into(),
+            })
+            .collect()
+    }
+    replace(ty.to_token_stream(), with)
+}
+
 pub fn numbered_vars(count: usize, prefix: &str) -> Vec<Ident> {
     (0..count).map(|i| format_ident!("__{prefix}{i}")).collect()
 }
